@@ -40,6 +40,34 @@ pub fn pool() -> Vec<(String, String)> {
     v.push(("pragma_blank".into(), "pragma   \t\n".into()));
     v.push(("hash_pragma_empty".into(), "#pragma \n".into()));
     v.push(("comment_stars".into(), "/** doc **/ a;".into()));
+    // line items whose last character could be taken for the start of something that goes on
+    // (a continuation, a string, a comment, a block)
+    for (n, t) in [
+        ("pragma_backslash", "pragma layout dense \\\n"),
+        ("hash_pragma_backslash", "#pragma a \\\n"),
+        ("annotation_backslash", "@ann a \\\n"),
+        ("pragma_quote", "pragma say \"\n"),
+        ("annotation_comment_open", "@ann /*\n"),
+        ("pragma_curly", "pragma {\n"),
+        ("line_comment_backslash", "a; // c \\\n"),
+    ] {
+        v.push((n.into(), t.into()));
+    }
+    // the statement kinds of the grammar that the model does not print: calibration,
+    // extern, arrays, old-style registers, durationof
+    for (n, t) in [
+        ("defcalgrammar", "defcalgrammar \"openpulse\";"),
+        ("cal_body", "cal { a = 1; }"),
+        ("cal_empty", "cal { }"),
+        ("defcal_body", "defcal x $0 { h $0; }"),
+        ("extern", "extern e1(int) -> int;"),
+        ("array_decl", "array[int[8], 2] aa;"),
+        ("qreg_decl", "qreg qq[2];"),
+        ("creg_decl", "creg cr[2];"),
+        ("durationof", "duration dd = durationof({ h r; });"),
+    ] {
+        v.push((n.into(), t.into()));
+    }
     v.push(("version".into(), "OPENQASM 3.0;".into()));
     v.push(("version_major".into(), "OPENQASM 3;".into()));
     v.push(("return".into(), "return a;".into()));
